@@ -67,6 +67,9 @@ def _cases(mod, scn, base_faults, ops, after_seq, level, tier, budget, sticky=Fa
             if sticky:
                 if not mut and op not in ('stat', 'lstat'):
                     continue
+                if e == 'EEXIST':
+                    continue      # "this name is taken" is an answer about one name, not a condition: a directory in which
+                                  # EVERY name is taken does not exist, so a persistent EEXIST is not injected
                 f['sticky'] = True
             out.append({'mod': mod.__name__, 'scn': scn, 'faults': base_faults + [f], 'budget': budget,
                         'id': '%s|%s' % (json.dumps(scn, sort_keys=True), ';'.join('%d:%s:%s%s' % (x['at'], x['op'], x['errno'], '*' if x.get('sticky') else '')
